@@ -135,6 +135,29 @@ Definition inversions_justifiedb (g : graph) (loops pre post : list node) : bool
 Definition hoist_spec_okb (g : graph) (loops pre post : list node) : bool :=
   permb pre post && topo_okb g post && lifted_indepb g loops pre post.
 
+(* ---- FlowGraph.__prune: pass-through nodes (fibers, ranks, tensors, StartLoop) are removed and every
+   predecessor is connected to every successor ---- *)
+Definition prune_node (g : graph) (n : node) : graph :=
+  filter (fun e => negb (Pos.eqb (fst e) n) && negb (Pos.eqb (snd e) n)) g ++
+  flat_map (fun ein => if Pos.eqb (snd ein) n then
+              flat_map (fun eout => if Pos.eqb (fst eout) n then [(fst ein, snd eout)] else []) g
+            else []) g.
+
+Definition prune (g : graph) (ns : list node) : graph := fold_left prune_node ns g.
+
+Definition same_setb (a b : list node) : bool :=
+  forallb (fun x => memb x b) a && forallb (fun x => memb x a) b.
+
+(* gu/lu: the graph before pruning with a topological order of it; gp/lp: after.  Every kept node
+   reaches exactly the same kept nodes before and after: no dependence lost, none invented. *)
+Definition prune_okb (gu : graph) (lu : list node) (gp : graph) (lp : list node) : bool :=
+  forallb (fun x => memb x lu) lp &&
+  forallb (fun a => same_setb (filter (fun x => memb x lp) (desc_set gu lu a)) (desc_set gp lp a)) lp.
+
+Definition edges_subsetb (a b : graph) : bool :=
+  forallb (fun e => existsb (fun f => Pos.eqb (fst e) (fst f) && Pos.eqb (snd e) (snd f)) b) a.
+Definition same_edgesb (a b : graph) : bool := edges_subsetb a b && edges_subsetb b a.
+
 (* ---- HiFiber.__trans_nodes: consumption of the brackets into a statement tree ----
    The Python function recurses at a LoopNode and returns at an EndLoopNode (whose rank it does not
    look at).  On a well-bracketed list this is the stack machine below; on an ill-bracketed list the
@@ -217,3 +240,23 @@ Definition c10_report (ns : list node) (g : graph) (loops : list node) (body : n
   show_bool (brackets_okb loops body ends post) ++ show_bool (balancedb cls 0 post) ++
   show_bool (nodes_eqb (hoist g loops pre) post) ++ show_bool (inversions_justifiedb g loops pre post) ++
   ";" ++ first_bad_edge g post ++ ";" ++ first_bad_lift g loops pre post ++ ";" ++ show_nats (depths cls 0 post).
+
+(* verdict on pruning: topo(unpruned order) reach-preserved model-equal *)
+Definition c10_prune_report (gu : graph) (lu removed : list node) (gp : graph) (lp : list node) : string :=
+  show_bool (topo_okb gu lu) ++ show_bool (prune_okb gu lu gp lp) ++ show_bool (same_edgesb (prune gu removed) gp).
+
+(* ---- completeness of the graph w.r.t. name-level conflicts of the emitted statements ----
+   groups: (a, [b1; b2; ..]) = statement a and later statements b_i touch a common name, at least one
+   of the two writing it.  Each b_i must transitively depend on a in the graph. *)
+Definition conflicts_okb (g : graph) (l : list node) (groups : list (node * list node)) : bool :=
+  forallb (fun sp => let D := desc_set g l (fst sp) in forallb (fun b => descb_in D (fst sp) b) (snd sp)) groups.
+
+Definition first_bad_conflict (g : graph) (l : list node) (groups : list (node * list node)) : string :=
+  match flat_map (fun sp => let D := desc_set g l (fst sp) in
+                   map (fun b => (fst sp, b)) (filter (fun b => negb (descb_in D (fst sp) b)) (snd sp))) groups with
+  | [] => "-"
+  | (a, b) :: _ => show_N (Npos a) ++ ">" ++ show_N (Npos b)
+  end.
+
+Definition c10_conflicts_report (g : graph) (l : list node) (groups : list (node * list node)) : string :=
+  show_bool (topo_okb g l) ++ show_bool (conflicts_okb g l groups) ++ ";" ++ first_bad_conflict g l groups.
